@@ -50,7 +50,7 @@ Theorem agree_is_spec_c02_run ops : forall st s,
 Proof.
   induction ops as [|o ops IH]; intros st s Hinv Habs Hwf; [reflexivity|].
   inversion Hwf as [|? ? Ho Hops]; subst.
-  destruct o as [w o_new | ds since limit latest o_ents o_next | ds limits o_pages | id at_ scope merged o_found o_parts o_del | fam o_keys | ds since limit o_ents o_next | id scope o_refs];
+  destruct o as [w o_new | ds since limit latest o_ents o_next | ds limits o_pages | id at_ scope merged o_found o_parts o_del | fam o_keys | ds since limit o_ents o_next | id scope o_refs tbl o_props];
     cbn [agree_run spec_run].
   - (* write *)
     destruct (apply_wop_refines (fst v_fixed) st (sget s) w Ho Hinv Habs) as [Hinv' Habs'].
